@@ -8,7 +8,6 @@ import (
 	"io/ioutil"
 	"os"
 	"os/exec"
-	"path/filepath"
 	"sort"
 	"strconv"
 	"strings"
@@ -652,7 +651,7 @@ func c13gen(c *h.Ctx, yield func(*h.Case)) {
 
 	// --- the known findings: always run (fixed keys), full-strength oracle ----------------------
 	// (corpus/C13/*.ops holds them as files; the built-in copy is used when a file is missing)
-	corpus := c13corpus()
+	corpus := fix.LoadCorpus("C13")
 	have := map[string]bool{}
 	for _, cs := range corpus {
 		have[cs.Class] = true
@@ -987,39 +986,6 @@ var c13witnesses = [][]string{
 	// r(a, b(c)) with b = x‖01 and r(a(d), c) with d = 01‖x: different servers, same tree id
 	{"witness-tree-shift", "c13 keys " + c13kR + " " + c13kA + " " + c13kX1 + " " + c13k1X + " " + c13kC, "c13 roster 0 1 2 3 4",
 		"c13 tree 0:2,1:0,2:1,4:0", "c13 tree 0:2,1:1,3:0,4:0"},
-}
-
-// c13corpus reads corpus/C13/*.ops next to the build directory: first line
-// "# class: <class>", then one op per line.
-func c13corpus() []*h.Case {
-	exe, err := os.Executable()
-	if err != nil {
-		return nil
-	}
-	files, _ := filepath.Glob(filepath.Join(filepath.Dir(filepath.Dir(exe)), "corpus", "C13", "*.ops"))
-	sort.Strings(files)
-	var out []*h.Case
-	for _, f := range files {
-		b, err := ioutil.ReadFile(f)
-		if err != nil {
-			continue
-		}
-		cs := &h.Case{Class: "corpus"}
-		for _, l := range strings.Split(string(b), "\n") {
-			l = strings.TrimSpace(l)
-			switch {
-			case strings.HasPrefix(l, "# class:"):
-				cs.Class = strings.TrimSpace(strings.TrimPrefix(l, "# class:"))
-			case l == "" || strings.HasPrefix(l, "#"):
-			default:
-				cs.Ops = append(cs.Ops, l)
-			}
-		}
-		if len(cs.Ops) > 0 {
-			out = append(out, cs)
-		}
-	}
-	return out
 }
 
 func keysAllEd(ks []string, m []int) bool {
